@@ -538,7 +538,7 @@ def do_replay(pid, tier, seed, path, t0):
         n += len(lines)
         for f in judge(lines, invariants=INVARIANTS)[0]:
             violations.append(to_violation(pid, f, meta))
-    cov = {"states": 0, "transitions": 0, "traces_validated_against_impl": len(attempts), "evaluations": n,
+    cov = {"traces_validated_against_impl": len(attempts), "evaluations": n,
            "exhaustive": False, "replay_of": path, "drift_steps": 0,
            "distinct_nontrivial": 1, "rule": "re-executions of the one stored script / seeded run",
            "samples": [meta.get("script") or [meta.get("seed"), meta.get("run"), meta.get("size")]],
